@@ -1522,6 +1522,14 @@ class Interp:
             lit = self._literal_builtin(q, args, kwargs)
             if lit is not None:
                 return lit
+            if q == "builtins.map" and len(args) == 2 and not kwargs and isinstance(args[0], (Closure, BoundMethod, Partial)):
+                # map(f, xs) is the comprehension (f(x) for x in xs)
+                fn_t = self.reify(args[0])
+                it_t = self.as_term(args[1])
+                if fn_t[0] == "lam" and fn_t[1] == 1:
+                    if self._is_lit(it_t):
+                        return ("list", tuple(self.beta(fn_t, [x]) for x in it_t[1]))
+                    return ("map", fn_t, it_t)
             if q in ("builtins.tuple", "builtins.list") and len(args) == 1 and not kwargs:
                 a0 = self.as_term(args[0])
                 if a0[0] in ("tuple", "list"):
